@@ -2,7 +2,9 @@ package dtone
 
 import (
 	"fmt"
+	"maps"
 	"net/http"
+	"slices"
 	"strings"
 
 	"github.com/nyaruka/gocommon/httpx"
@@ -71,14 +73,15 @@ func (s *service) Transfer(sender urns.URN, recipient urns.URN, amounts map[stri
 
 	// find a matching product in any currency we have a desired amount for
 	var product *Product
-	for currency, desiredAmount := range amounts {
+	for _, currency := range slices.Sorted(maps.Keys(amounts)) {
 		for _, p := range products {
-			if p.Destination.Unit == currency {
-				if p.Destination.Amount.Equal(desiredAmount) {
-					product = p
-					break
-				}
+			if p.Destination.Unit == currency && p.Destination.Amount.Equal(amounts[currency]) {
+				product = p
+				break
 			}
+		}
+		if product != nil {
+			break // use the first currency that has one so that the choice doesn't depend on map order
 		}
 	}
 	if product == nil {
